@@ -174,6 +174,10 @@ CHECKS["C26"] = dict(level="other",
 CHECKS["C35"] = dict(level="other", text="Bounded-exhaustive over expression DAG shapes (<=3 non-leaf nodes for the full kind sets, <=4/5/6 for the reduced families listed in evidence bounds; arrays <=2 elements; both direct hail.ir construction and construction through hl.* calls), and for ALL leaf values per shape: the text of the real CSERenderer denotes the same value as the text of the real PlainRenderer, every lifted Let/AggLet is in scope and in the right eval/agg/scan context, the text is well formed and the renderer does not raise; in the stream-free strict family error behaviour (ArrayRef) agrees too. One z3 validity query per batch of <=300 shapes over shape integers and leaf variables. 'other' because it is a bounded function-level equivalence check, not a transition system.", note="Trusted: vt/irsem.py (reader + z3 big-step evaluator: total semantics, no missing values, strict Let, Sum/AggFilter/AggLet/StreamAgg/StreamAggScan only; node layouts cross-checked against Parser.scala cases each run), vt/shapex.py explorer, builder well-formedness (types/scopes), z3. Token-identical texts contribute false. Aggregator registry entry Sum(int64) re-registered with real type objects (parsimonious absent). Known finding: cse-print-pass-binding-site-id-depth-collision. Shapes outside the bounds, NA semantics, and other agg ops are not covered.", technique="native solver-forked shape exploration + z3 equivalence of both rendered IR texts", design_ref="6/C35")
 CHECKS["C36"] = dict(level="other", text="(A) For Python literals built from ints (all of Z), bools, nested lists (depth<=3, len<=3), tuples and str-keyed dicts: every path of the real impute_type/typecheck/hl.literal (AST interpreted to z3 path conditions) returns exactly the type an independent oracle demands for the int32/int64/out-of-range region of each leaf, the value passes typecheck against that type, values outside int64 are rejected, and hl.literal(int) builds I32/I64 with the reported dtype; decided by z3 validity per path, each path validated on the real functions. (B) For every program of <=4 chained API calls over the listed expression/Table/MatrixTable operations (bounded exhaustive, shapes as z3 integers), after every accepted call the front end's reported types equal the IR's cached type, a deep recomputation by the real _compute_type, and a type inferred from the IR text by engine-side rules read from the Scala operator tables. 'other': bounded function/program-level check.", note="Trusted: vt/pyk.py + harness/C36_lit.Interp (set/dict/nested comprehensions, try/except, typecheck-decorated functions entered at __wrapped__, ir.I32/I64/construct_expr as recording intrinsics), the oracle in harness/C36_lit.want, harness/C36_types.py rule table (nodes outside it are 'not inferred'), vt/shapex.py, harness/C31_peg.py stand-in for parsimonious, stub Env._hc (logger only), aggregator registry refilled via real register_aggregators(). Part B uses representative leaf values; floats/str/sets/loci as symbolic literal leaves, backend calls, aggregators and methods/ are out. Field order of a struct unified from list elements is hash-seed dependent in the front end and is not part of the claim.", technique="pyk AST->z3 path conditions + validity per path (literals); solver-forked bounded program exploration with three type oracles", design_ref="6/C36")
 
+CHECKS["C20"] = dict(level="other", text="CrossHair (z3) symbolic execution of the real bounded_gather2_return_exceptions / bounded_gather2_raise_exceptions (cancel_on_error on/off) / WithoutSemaphore / OnlineBoundedGather2 / bounded_gather on the real asyncio scheduler with 3 (thorough also 4) workers awaiting director-owned futures: resolve order, per-future value-or-exception, drain depth between resolutions and result values are symbolic; parallelism 1-2; caller holding a permit or top-level via bounded_gather. Proves per configuration: <=P workers at once during the call and afterwards, results in submission order, exceptions in place / first raised propagated, no pending task and no uncancelled work after return where promised, call returns, permits restored - except aspects reported as (known) findings. Bounded function-level exploration of finite schedules, not a transition-system model, hence 'other'.", note="asyncio.BaseEventLoop with null selector, constant clock and a task factory that keeps tasks alive; `asyncio` in hailtop.utils.utils is a proxy that records create_task/Semaphore; each future resolved exactly once; outer cancellation, >4 workers, PoolShutdownError path and direct bounded_gather2 calls from non-permit-holders (router_fs._async_ls) not covered; a second defect inside an already-excused aspect of the same configuration would be masked; known findings: permit inflation after failed gather (3 classes), OnlineBoundedGather2 exit before cancelled tasks finish.", technique="CrossHair symbolic scheduler harness on real asyncio + real code, aspect-wise classification with concrete replay", design_ref="6/C20")
+CHECKS["C21"] = dict(level="other", text="CrossHair (z3) runs the real retry_transient_errors_with_debug_string with the real is_transient_error/is_limited_retries_error/is_rate_limit_error on failure sequences whose exception kind (catalogue derived from the classifiers' isinstance branches, 24 kinds), HTTP status/errno (-2..100000), message choice and cause-chain depth are symbolic: position sweeps up to failure 8 (quick) / 12 (thorough) and all sequences of <=4 / <=6 failures over one representative per reachable classification; proves retried iff rate-limit or transient or (limited-retry and tries<=5), else that exception raised at once, one in-bounds sleep per retry equal to delay_ms_for_try(tries)/1000. delay_ms_for_try is translated AST->z3 integers and its bounds proved for all tries>=0 and all random draws (defaults and symbolic base/max; cvc5 cross-check in thorough). Function-level bounded symbolic execution plus an unbounded arithmetic lemma: 'other'.", note="loop driven by hand (asyncio.sleep, random.randrange, time_msecs, log stubbed in utils' namespace; delay_ms_for_try wrapped by a recorder); aiodocker/urllib3/requests/botocore exception classes are real-shaped stand-ins; OSError-family kinds use Python properties for errno/strerror; 'transient' etc. mean what the real classifiers return; jitter in loop runs is min/mid/max (the loop's /1000.0 realises symbolic ints) - all draws covered by the z3 lemma; exception classes outside the catalogue not covered; ClientPayloadError is assumed to carry a message (aiohttp always passes one).", technique="CrossHair on the real retry loop + AST->z3 proof of the delay kernel with per-run translator validation", design_ref="6/C21")
+CHECKS["C27"] = dict(level="other", text="CrossHair (z3) runs the real gear.database retry_transient_mysql_errors / transaction / Database.start / Transaction (and the Database one-statement methods, execute_many, check_call_procedure) on the real asyncio scheduler against a fake pool with a committed/pending store and a fault plan whose operation index, error class (Operational/Internal/Integrity/Programming/ValueError) and integer code (-1..100000) are symbolic for each of <=2 (thorough <=3) attempts, 1-3 statements: proves retry iff (Operational and code in {1040,1213,2003,2013}) or (Internal and 1205), any other error raised at once as the same object, committed store untouched by failed/retried attempts and holding the writes exactly once after success, one back-off per retry, no connection leak. Bounded function-level symbolic execution: 'other'.", note="pymysql.err is a real-shaped stub hierarchy installed before gear.database is imported; aiomysql never reached (fake pool); faults fire before the operation takes effect, one per attempt; ROLLBACK/release never fail (a rollback failure on a dead connection would replace the original error - not explored); sleep_before_try, log, traceback.format_stack, prometheus metrics stubbed in gear.database's namespace; cancellation in flight, fetchall generators, Database.async_init not covered.", technique="CrossHair symbolic fault-plan harness on the real transaction code with a two-level fake store", design_ref="6/C27")
+
 NOT_APPLICABLE = {
     "C37": "Scala floating-point statistics calling Apache commons-math (gamma/beta, root finding); no scalac/JVM build of "
            "Hail in the sandbox, library source absent, transcendental FP is outside z3/cvc5's FP theory — nothing "
